@@ -122,7 +122,8 @@ func PatchesFromDocument(doc string) ([]Patch, error) {
 			// the member name goes into a JSON string: quotes, backslashes and control characters have to be escaped
 			var path []byte
 
-			path, err = json.Marshal("/" + key)
+			// ... and '~' and '/' have to be escaped for the JSON pointer (RFC 6901)
+			path, err = json.Marshal("/" + strings.NewReplacer("~", "~0", "/", "~1").Replace(key))
 			if err == nil {
 				jsonPatches = append(jsonPatches, fmt.Sprintf(jsonPatchAddTemplate, string(path), string(jsonBytes)))
 			}
